@@ -396,6 +396,10 @@ pub fn on_cleanup(f: impl FnOnce() + 'static) {
 /// ```
 pub fn batch<T>(f: impl FnOnce() -> T) -> T {
     let root = Root::global();
+    if root.batching.get() {
+        // Nested batch: updates are flushed when the outermost batch ends.
+        return f();
+    }
     root.start_batch();
     let ret = f();
     root.end_batch();
